@@ -144,6 +144,21 @@ CLAIMS = {
          "definition and first use.",
     technique="dominance / must-pass-through at entries, argument-flow checks on the late re-parse, statement order on the CFG",
     ref="DESIGN.md 3/C17"),
+ "C12": dict(
+    text="Static gate coverage of the two conversion preferences (not the subset / value-preservation relations): every "
+         "registered converter, with the helpers and converters it delegates to, reads the flags its conversions depend "
+         "on, and a new converter must be classified (R12a); Options.__init__ turns an addition policy that was not "
+         "given into False under no_data_loss - the guard is evaluated for the parameter's default value - and the "
+         "tuple-surplus gate reads the flag (R12b); each enumerated lossy operation (collection collapse, lenient "
+         "decode, datetime/timed text to date with a full midnight comparison, datetime to time, truthiness fallback, "
+         "fractional int, list to data class incl. element fast paths) is separated from no_data_loss by a raising test "
+         "or a strict variant (R12c); the union's retry stages only raise flags (R12d).",
+    note="Undecided (the core): that whatever converts under the flags converts to an equal value without them, and "
+         "value preservation, as relations over all (source, target) pairs. Observed, not derivable: for Union[int, str] "
+         "and 3.5 no_explicit_cast gives 3 while the lenient result is '3.5'.",
+    technique="interprocedural flag-read sets per converter against a requirement table, default-value evaluation of "
+              "a guard, dominating raise-guard facts in front of enumerated lossy operations, keyword check of stage options",
+    ref="DESIGN.md 3/C12"),
  "C13": dict(
     text="Static tables-and-views check of the JSON-Schema generator (not validity of whole documents): constraint, "
          "primitive, operator and format tables folded from source carry the JSON-Schema keyword of the same meaning per "
